@@ -240,6 +240,9 @@ func (s *Seq) repairScenario(r *simrt.Rand, extra map[string]int) *repairFaults 
 					continue
 				}
 				u := fmt.Sprintf("aaaaaaaa-0000-4000-8000-%012d", next)
+				if r.Bool() {
+					u = fmt.Sprintf("AAAABBBB-CCCC-4DDD-8EEE-%012d", next) // upper-case hex digits are a valid uuid too
+				}
 				x.Initialize(u)
 				tmp.Put(next, x)
 				b, _ := json.Marshal(x)
